@@ -827,7 +827,7 @@ class LegCharge:
 
         """
         slices = np.array([(sl.start, sl.stop) for sl in qdict.values()], np.intp)
-        charges = np.array(list(qdict.keys()), dtype=QTYPE).reshape((-1, chargeinfo.qnumber))
+        charges = np.array(list(qdict.keys()), dtype=QTYPE).reshape((len(qdict), chargeinfo.qnumber))
         sort = np.argsort(slices[:, 0])  # sort by slice start
         slices = slices[sort, :]
         charges = charges[sort, :]
@@ -835,7 +835,7 @@ class LegCharge:
             raise ValueError('The slices are not contiguous.\n' + str(slices))
         slices = np.append(slices[:, 0], [slices[-1, 1]])
         res = cls(chargeinfo, slices, charges, qconj)
-        res.sorted = True
+        res.sorted = res.is_sorted()  # ordered by slice, which need not be the order of the charges
         res.bunched = res.is_bunched()
         return res
 
